@@ -18,7 +18,7 @@ def budget(tier):
 
 
 def gen(rng, index, tier):
-    raw, meta = lib.gen_dataset(rng, nmax=7 if tier == "quick" else 10, mmax=5, big=0.03)
+    raw, meta = lib.gen_dataset(rng, nmax=7 if tier == "quick" else 10, mmax=5, big=0.06, big_nmax=200, big_hi=0.5)
     case = {"dataset": raw, "scheme": common.family_scheme(rng), "use_bid": rng.random() < 0.5, "meta": meta,
             "perm_seed": rng.randint(0, 10 ** 6)}
     if rng.random() < 0.12:
